@@ -504,7 +504,8 @@ func ruleC13_4(c *Ctx) {
 	}
 }
 
-// appendedSources lists the values appended (as single elements) to the slice value v is built from.
+// appendedSources lists the values appended (as single elements) to the slice value v is built from, and the values
+// stored by index into a made slice it starts from.
 func appendedSources(v ssa.Value) []ssa.Value {
 	var out []ssa.Value
 	seen := map[ssa.Value]bool{}
@@ -518,6 +519,17 @@ func appendedSources(v ssa.Value) []ssa.Value {
 		case *ssa.Phi:
 			for _, e := range y.Edges {
 				rec(e)
+			}
+		case *ssa.MakeSlice:
+			// elements written by index into the made slice
+			for _, r := range *y.Referrers() {
+				if ia, ok := r.(*ssa.IndexAddr); ok {
+					for _, rr := range *ia.Referrers() {
+						if st, ok := rr.(*ssa.Store); ok && st.Addr == ssa.Value(ia) {
+							out = append(out, st.Val)
+						}
+					}
+				}
 			}
 		case *ssa.Call:
 			if calleeName(y) == "builtin:append" {
